@@ -235,7 +235,14 @@ func evalEAN(c *core.Ctx, cs *core.Case) {
 		if (len(s) == 8 || len(s) == 13) && allDigits(s) {
 			c.Fail("C06", cs, "accepted although the last digit is not the GS1 check digit %c", lin1d.EANCheckDigit(s[:len(s)-1]))
 		}
-		return // nothing defined to compare against
+		// accepted although it must be refused: whatever was returned must at least be a symbol
+		// that decodes to the number its Content() reports
+		if row, ok := row1D(c, cs, bc); ok {
+			if dec, err := lin1d.DecodeEAN(row); err != nil || dec != bc.Content() {
+				c.Fail("C06", cs, "input that is not an EAN number was accepted and the symbol does not decode to its Content() %q (decoded %q, %v)", bc.Content(), dec, err)
+			}
+		}
+		return
 	}
 	full := s
 	if len(s) == 7 || len(s) == 12 {
@@ -439,6 +446,22 @@ func evalC93(c *core.Ctx, cs *core.Case) {
 		spelled, _ := lin1d.Code93Text(data, false)
 		if bc.Content() != string(spelled) {
 			c.Fail("C11", cs, "Content() = %q is not the basic-alphabet spelling %q of the text", bc.Content(), string(spelled))
+		}
+		// and, independently of what was drawn, Content() must spell the text that was passed in
+		var cv []int
+		okc := true
+		for _, r := range bc.Content() {
+			switch {
+			case r >= 0xF1 && r <= 0xF4:
+				cv = append(cv, 43+int(r-0xF1))
+			case r < 128 && lin1d.Code39Value(byte(r)) >= 0:
+				cv = append(cv, lin1d.Code39Value(byte(r)))
+			default:
+				okc = false
+			}
+		}
+		if back, err := lin1d.Code93Text(cv, true); !okc || err != nil || string(back) != s {
+			c.Fail("C11", cs, "Content() = %q does not spell the text %q that was encoded", bc.Content(), s)
 		}
 	} else if bc.Content() != s {
 		c.Fail("C11", cs, "Content() = %q, want %q", bc.Content(), s)
